@@ -98,7 +98,7 @@ class DictList(list):
             elif isinstance(item, str):
                 return self.get_by_id(item)
             elif item in self:
-                return item
+                return self.get_by_id(item.id)
             else:
                 raise TypeError(f"item in iterable cannot be '{type(item)}'")
 
